@@ -1,7 +1,8 @@
-import flags_check, latency_check, conn_check
+import flags_check, latency_check, conn_check, locks_check
 
 CHECKS = {
     "C08": conn_check.run,
+    "C09": locks_check.run,
     "C17": flags_check.run,
     "C18": latency_check.run,
 }
